@@ -109,24 +109,41 @@ func VerifC15_Burn() {
 func VerifC15_Mint() {
 	verifExpect("minted", "refused")
 	e := newMtEnv()
+	// in this step the class belongs to alice (a tracked holder); bob is the stranger
+	e.k.SetDenom(e.ctx, types.Denom{Id: e.denomID, Name: "class", Owner: e.alice.String()})
 	amt := verifUint64("amt")
-	actor, isOwner := e.owner, true
+	actor, isOwner := e.alice, true
 	if verifChoice("actor", 2) == 1 {
-		actor, isOwner = e.alice, false
+		actor, isOwner = e.bob, false
 	}
-	msg := &types.MsgMintMT{Id: e.mtID, DenomId: e.denomID, Amount: amt, Sender: actor.String(), Recipient: e.alice.String()}
+	// the recipient: named explicitly (the owner or the other account) or left empty (= the sender)
+	recipient, recStr := actor, ""
+	switch verifChoice("recipient", 3) {
+	case 1:
+		recipient, recStr = e.alice, e.alice.String()
+	case 2:
+		recipient, recStr = e.bob, e.bob.String()
+	}
+	msg := &types.MsgMintMT{Id: e.mtID, DenomId: e.denomID, Amount: amt, Sender: actor.String(), Recipient: recStr}
 	verifAssume(msg.ValidateBasic() == nil)
 	err, _ := e.verifDeliver(func() error { _, err := NewMsgServerImpl(e.k).MintMT(e.ctx, msg); return err })
 	b1, b2, rest, sup := e.read()
 	e.assertInv(b1, b2, rest, sup)
+	r0, r1 := u(e.b1), b1
+	if recipient.Equals(e.bob) {
+		r0, r1 = u(e.b2), b2
+	}
+	two64 := verifPow2(64)
+	fits := verifAdd(u(e.supply), u(amt)).Cmp(two64) < 0 && verifAdd(r0, u(amt)).Cmp(two64) < 0
 	if err != nil {
 		verifCover("refused")
-		verifAssert(b1.Cmp(u(e.b1)) == 0 && sup.Cmp(u(e.supply)) == 0, "refused mint changes nothing")
+		verifAssert(b1.Cmp(u(e.b1)) == 0 && b2.Cmp(u(e.b2)) == 0 && sup.Cmp(u(e.supply)) == 0, "refused mint changes nothing")
+		verifAssert(!(isOwner && fits), "the class owner can mint to anybody as long as nothing overflows")
 		return
 	}
 	verifCover("minted")
 	verifAssert(isOwner, "only the class owner mints")
-	verifAssert(verifSub(b1, u(e.b1)).Cmp(u(amt)) == 0, "recipient gains exactly the minted amount")
+	verifAssert(verifSub(r1, r0).Cmp(u(amt)) == 0, "recipient gains exactly the minted amount")
 	verifAssert(verifSub(sup, u(e.supply)).Cmp(u(amt)) == 0, "supply grows by exactly the minted amount (no wrap)")
 }
 
